@@ -9,6 +9,7 @@ Tolerances (all relative to the yield stress sy, the strain scale, or ||C||; non
   stress/state    |sig - Compute_sigma(eps6, z)| <= 1e-8 * max(sy, 1)
   tangent         |C_alg - C_fd| <= 2e-4 * |C_fd| (1e-3 in plane stress)  Richardson central differences, same branch only
   solvers         |dsig| <= 1e-6*max(|sig|, sy) (1e-5 plane stress), |dz| <= 1e-8, |dC| <= 1e-3*|C|
+  batch           batched field vs each point alone: see evaluate_batch
   plane stress    |sig_zz| <= 2*max(1e-8*max(sy,1), 1e-9*Czz) + 1e-8*max(sy,1)   (the code's own stop test)
 """
 
@@ -131,4 +132,54 @@ def evaluate_sim(c, r):
                 V.append(("set-iter-leaves-stale-trial", i, "Set_Iter(%s) left a stale trial state" % ev["op"][1]))
         if ev.get("history_intact") is False:
             V.append(("saved-history-mutated", i, "a previously saved state changed after %s" % op))
+    return V
+
+
+def evaluate_batch(c, r):
+    """Batched field vs its points integrated alone; sig_zz at every point; oddness (no state).
+    Tolerances: a batch shares the iteration count of its slowest point, so converged points take
+    extra Newton steps -> agreement to the local solver tolerance (1e-7*max(|sig|,sy); plane stress
+    1e-5 because of the 1e-9*Czz stop test), 1e-12 relative for a material without internal
+    variables (linear: no iteration beyond the first)."""
+    V = []
+    if r.get("error"):
+        return [("harness-error", -1, r["error"][-300:])]
+    sy = sy_of(c)
+    sc = max(sy, 1.0)
+    rate = bool(c.get("rate"))
+    nostate = r.get("nz", 1) == 0
+    lim_zz = 2 * max(1e-8 * sc, 1e-9 * r.get("Czz", 0.0)) + 1e-8 * sc
+    for rec in r["calls"]:
+        k = rec["call"]
+        if "exception" in rec:
+            continue
+        if rec.get("pure") is False:
+            V.append(("integrate-writes-its-arguments", k, "batched call changed zOld"))
+        if "odd_err" in rec and rec["odd_err"] > 1e-12 * max(rec["odd_scale"], 1e-300):
+            V.append(("not-odd-without-internal-variables", k, "max|sig(-eps) + sig(eps)| = %.3e (|sig| = %.3e)" % (rec["odd_err"], rec["odd_scale"])))
+        scale_call = max([pr.get("nsig", 0.0) for pr in rec["points"]] + [rec.get("odd_scale", 0.0), 1e-300])
+        stop_ps = 2 * max(1e-8 * sc, 1e-9 * r.get("Czz", 0.0)) if c["mode"] == "PS" else 0.0
+        for pr in rec["points"]:
+            tag = "call %d point (%d,%d)" % (k, pr["e"], pr["g"])
+            if "single_exception" in pr or not pr["ok_b"]:
+                continue
+            if c["mode"] == "PS" and abs(pr["szz"]) > lim_zz:
+                V.append(("plane-stress-szz", k, "%s: sig_zz = %.3e > %.3e in a batched field" % (tag, pr["szz"], lim_zz)))
+            if "elastic_err" in pr and pr["elastic_err"] > 1e-11 * scale_call + stop_ps:
+                V.append(("elastic-not-C-eps", k, "%s: |sig - C eps| = %.3e (field |sig| = %.3e)" % (tag, pr["elastic_err"], scale_call)))
+            if pr.get("ok_s"):
+                if nostate:
+                    tol = 1e-12 * scale_call + stop_ps
+                else:
+                    tol = (1e-5 if c["mode"] == "PS" else 1e-7) * max(pr["nsig"], sy)
+                if pr["dsig"] > tol or pr["dz"] > (1e-8 if c["mode"] == "PS" else 1e-9):
+                    V.append(("batch-differs-from-pointwise", k, "%s: |dsig| = %.3e (|sig| = %.3e), |dz| = %.3e" % (tag, pr["dsig"], pr["nsig"], pr["dz"])))
+                elif pr["dC"] > (1e-3 if not nostate else 1e-10) * max(pr["nC"], 1e-300) and abs(pr.get("dp", 1.0)) > 1e-9:
+                    V.append(("batch-differs-from-pointwise", k, "%s: |dC|/|C| = %.3e" % (tag, pr["dC"] / pr["nC"])))
+            if "f" in pr and not rate and pr["f"] > 1e-8 * sc:
+                V.append(("inadmissible", k, "%s: f = %.3e" % (tag, pr["f"])))
+            if "dp" in pr and pr["dp"] < -1e-13:
+                V.append(("dgamma-negative", k, "%s: dp = %.3e" % (tag, pr["dp"])))
+            if pr["sig_vs_state"] > 1e-8 * sc:
+                V.append(("stress-state-inconsistent", k, "%s: %.3e" % (tag, pr["sig_vs_state"])))
     return V
